@@ -198,4 +198,17 @@ theorem uatRevoked_write (e : Entry) (md : Mod) (ct cid k : Nat) (h : UatRevoked
     rw [lookup_mapVals, hs1]
     simp [uatPost_of_revoked hr1]
 
+theorem revokedIn_plugin (e : Entry) (ct cid k : Nat) (h : RevokedIn e.o2s k) :
+    RevokedIn (plugin ct cid e).o2s k := by
+  obtain ⟨s, hs, c, hr⟩ := h
+  refine ⟨s, ?_, c, hr⟩
+  rw [plugin_o2s, lookup_mapVals, hs]
+  simp [o2Post_of_revoked hr]
+
+/-- The plugin leaves `issued_at` of every OAuth2 session alone. -/
+theorem plugin_o2s_issued (e : Entry) (ct cid k : Nat) (s : Sess) (h : lookup e.o2s k = some s) :
+    ∃ s', lookup (plugin ct cid e).o2s k = some s' ∧ s'.issued = s.issued := by
+  refine ⟨o2Post (plugin ct cid e).uats ct cid s, ?_, o2Post_issued _ _ _ _⟩
+  rw [plugin_o2s, lookup_mapVals, h]; rfl
+
 end Kanidm.OAuth2.Token
